@@ -21,6 +21,7 @@ ASSUME_TREE = [
 
 def split_jobs(engine, prop, seed, total, procs, threads, variant, known, tier, extra=None, rayons=(1, 2, 4, 2), base=0):
     jobs = []
+    procs = max(1, min(procs, total))
     per = max(1, total // procs)
     for k in range(procs):
         lo = base + k * per
